@@ -707,7 +707,13 @@ def malform(req, route, method, view, rng):
                         'query:long', 'query:empty-value', 'query:on-write'])
         if k == 'query:repeat' and q:
             key, val = rng.choice(q)
-            q.append((key, rng.choice([val, query_value(key, view, rng), rng.choice(QUERY_BAD_VALUES)])))
+            newv = rng.choice([val, query_value(key, view, rng), rng.choice(QUERY_BAD_VALUES), rng.choice(QUERY_BAD_VALUES)])
+            if rng.random() < 0.5:
+                q.append((key, newv))
+            else:
+                # the repeated value FIRST, the valid one last: validators that look at the last value (dict(req.GET))
+                # and readers that take the first one (getall(...)[0]) then disagree
+                q.insert([i for i, kv in enumerate(q) if kv[0] == key][0], (key, newv))
         elif k == 'query:unknown':
             q.append((rng.choice(EXTRA_QUERY_KEYS), rng.choice(QUERY_BAD_VALUES + ['VCPU:1', AGG[0]])))
         elif k == 'query:bad-value' and q:
